@@ -141,7 +141,9 @@ func (x *hbExtractor) pointee(v ssa.Value, env absEnv, iter string) string {
 			return x.pointee(v.Call.Args[0], env, iter) // may write in place into the same backing array
 		}
 	}
-	return "?obj:" + v.Name()
+	// an object reached through something the walk cannot name (typically the result of a
+	// call): taken as belonging to the executing thread
+	return "?obj:" + v.Name() + "#" + x.cur
 }
 
 // indexKey: a term for an index value; the induction variable of the
@@ -289,8 +291,10 @@ func (x *hbExtractor) call(c *ssa.CallCommon, th string, env absEnv, it, pos str
 		x.m.add(th, "read", "shared:syntax+types+context", pos, "")
 		x.m.add(th, "write", "owned:"+x.pointee(c.Args[0], env, it), pos, "")
 	default:
-		if f := c.StaticCallee(); f != nil && f.Pkg == x.pkg && f.Blocks != nil && c.Method == nil {
-			// same-package callee: walk it with arguments bound to the caller's locations
+		if f := c.StaticCallee(); f != nil && f.Pkg != nil && f.Blocks != nil && c.Method == nil &&
+			(f.Pkg == x.pkg || strings.HasPrefix(f.Pkg.Pkg.Path(), modPath+"/linter")) {
+			// callee in the same package or in the linter package (the shared context's
+			// methods): walk it with arguments bound to the caller's locations
 			cenv := absEnv{}
 			for k, p := range f.Params {
 				if k < len(c.Args) {
